@@ -3765,11 +3765,21 @@ fn generate_constraints_expr_funcap_helper(
     expr_node: AstNode,
     node_ty: TypeVar,
 ) {
+    // `type Node = { next: option<Node> = option.some(Node()) }`: the default value omits the argument it
+    // is the default of, so it would be spliced into itself without end
+    if !ctx.calls_being_checked.insert(expr_node.id()) {
+        ctx.errors.push(Error::GenericWithNode {
+            msg: "This call is part of a default value that it uses itself".to_string(),
+            node: expr_node,
+        });
+        return;
+    }
     if let Some(PotentialType::Function(_, func_ty_args, _)) = ty_func.single() {
         args.iter().zip(func_ty_args).for_each(|(arg, expected)| {
             generate_constraints_expr(ctx, polyvar_scope, Mode::ana(expected), arg);
         });
     }
+    ctx.calls_being_checked.remove(&expr_node.id());
 
     // arguments
     let tys_args: Vec<TypeVar> = args
